@@ -67,6 +67,8 @@ type Frame struct {
 }
 
 type Exec struct {
+	shared     map[string]bool
+	sharedAt   map[*Object][][]int // shared fields havocked at a lock acquisition (exempt from the frame)
 	retGhosts  map[string]EV
 	tagTypes   map[string]types.Type
 	implIfaces map[string]types.Type
